@@ -155,6 +155,12 @@ func genC08(rc *RunCtx) (*C1, bool) {
 		if keep > 0 && t.Choose(3) == 0 {
 			// the first k bytes of the valid reply arrive on their own (k may cover a whole header), then the flood
 			h := 1 + t.Choose(min(keep, 14))
+			if t.Choose(2) == 0 {
+				// only the head is genuine: what follows it is the flood itself, not the rest of the reply
+				for i := h; i < keep; i++ {
+					buf[i] = junk[i%8] ^ byte(i) ^ 0x5a
+				}
+			}
 			sc.Chunks = append(sc.Chunks, Chunk{N: h, Gap: gapOf(t)})
 			off = h
 		} else if t.Choose(3) == 0 {
